@@ -371,7 +371,10 @@ EXTRA = {
            "closure result) is true of the model's own run.",
     "C20": " c20_spec_model: for EVERY arm of the harness table and EVERY value set whose custom registry new_custom accepts, the executable spec "
            "(macro vs explicit-call twin: same result kind, same descriptor, same reaction to an update, targeted registry gathers as for the explicit "
-           "call, other registry empty, duplicate refused, nothing registered when not Ok) is true of the model's own observations.",
+           "call, other registry empty, duplicate refused, nothing registered when not Ok) is true of the model's own observations. Outside the model "
+           "and proved nothing about: the one-time creation of the process-wide default registry (lazy_static); the check exercises it with 40 "
+           "(thorough 400) fresh harness processes in which 12 threads make the first use at once through register_int_counter! and every Ok "
+           "registration must be gathered and not admitted twice - a probabilistic stress that only supports the search for a failing input.",
     "C19": " c19_spec_model: for every well-formed declaration and every allowed round (static, local and auto-flush forms) the executable spec is "
            "true of the model's own output; c19_model_obs_matches.",
 }
